@@ -512,14 +512,14 @@ def runCmd (nested : EvalFn) (endRec : Cmd â†’ List Str â†’ Option Str â†’ Nat â
     | [a] =>
       match decDigits? a with
       | some n => (.continue (some (natToStr (n + 1))), vars, s)
-      | none => (errR, vars, s)
+      | none => (.continue (some "1".toList), vars, s)
     | _ => (errR, vars, s)
   | .lt =>
     match args with
     | [a, b] =>
       match decDigits? a, decDigits? b with
       | some x, some y => (.continue (some (if x < y then "true".toList else "false".toList)), vars, s)
-      | _, _ => (errR, vars, s)
+      | _, _ => (.continue (some "false".toList), vars, s)
     | _ => (errR, vars, s)
 
 /-- the command dispatcher with fuel (for the generic `end`) -/
